@@ -1,24 +1,67 @@
 // C10 harness: runs FlatMap / ParameterizedObject histories on the real code.
 // usage: harness <mode>   mode: ii | ss | sv   (FlatMap instantiation), P lines use ParameterizedObject
 // Input/outputs: see ocaml/C10/driver.ml (identical canonical form).
+#include <cstdint>
+#include <cstring>
 #include <cstdio>
 #include <cstdlib>
 #include <iostream>
 #include <sstream>
 #include <string>
 #include <vector>
+// built twice, in parallel: -DC10_NO_PO (FlatMap part) and -DC10_NO_FM (ParameterizedObject part)
+#ifndef C10_NO_FM
 #include "rkcommon/containers/FlatMap.h"
+#endif
+#ifndef C10_NO_PO
 #include "rkcommon/math/vec.h"
 #include "rkcommon/utility/ParameterizedObject.h"
+#endif
 
 using namespace rkcommon;
+#ifndef C10_NO_FM
 using rkcommon::containers::FlatMap;
+#endif
+#ifndef C10_NO_PO
 using rkcommon::math::vec3f;
+#endif
 
 template <typename T> struct Codec;
 template <> struct Codec<int> {
   static int enc(long v) { return (int)v; }
   static long dec(const int &v) { return v; }
+};
+// ---- values that are equal under operator== but observably different, and NaNs; decoding is BIT-EXACT / looks at
+// every field, so "the last value written" is checked by identity, not by ==
+//   float: code 0 <-> +0.0f (also VALUE()), 91 <-> -0.0f (== +0.0f), 92 <-> a quiet NaN, 93 <-> the NaN with the sign bit
+//          set (a NaN is != itself), every other code v <-> (float)v
+//   Shadow {key, shadow}: operator== compares key only; code v <-> {v % 50, v / 50}, so v and v + 50 are == but distinct
+static float floatEnc(long v)
+{
+  uint32_t b;
+  if (v == 0) b = 0u; else if (v == 91) b = 0x80000000u; else if (v == 92) b = 0x7fc00000u; else if (v == 93) b = 0xffc00000u;
+  else return (float)v;
+  float f; memcpy(&f, &b, 4); return f;
+}
+static long floatDec(const float &f)
+{
+  uint32_t b; memcpy(&b, &f, 4);
+  if (b == 0u) return 0; if (b == 0x80000000u) return 91; if (b == 0x7fc00000u) return 92; if (b == 0xffc00000u) return 93;
+  return (long)f;
+}
+struct Shadow {
+  int key = 0;
+  int shadow = 0;
+  bool operator==(const Shadow &o) const { return key == o.key; }
+  bool operator!=(const Shadow &o) const { return key != o.key; }
+};
+template <> struct Codec<float> {
+  static float enc(long v) { return floatEnc(v); }
+  static long dec(const float &v) { return floatDec(v); }
+};
+template <> struct Codec<Shadow> {
+  static Shadow enc(long v) { Shadow s; s.key = (int)(v % 50); s.shadow = (int)(v / 50); return s; }
+  static long dec(const Shadow &s) { return s.key + 50L * s.shadow; }
 };
 template <> struct Codec<std::string> {
   static std::string enc(long v) { return v == 0 ? std::string() : "v" + std::to_string(v) + std::string(v % 40, 'x'); }
@@ -85,6 +128,7 @@ static std::vector<std::string> split(const std::string &s, char d)
   return r;
 }
 
+#ifndef C10_NO_FM
 template <typename K, typename V, typename KC>
 static std::string runF(const std::vector<std::string> &ops)
 {
@@ -133,6 +177,9 @@ static std::string runF(const std::vector<std::string> &ops)
   return out.str();
 }
 
+#endif  // C10_NO_FM
+
+#ifndef C10_NO_PO
 struct PO : public utility::ParameterizedObject {
   using ParameterizedObject::findParam;
   using ParameterizedObject::params_begin;
@@ -153,6 +200,10 @@ enum C10Enum : int { C10_E0 = 0, C10_EMAX = 1000 };
 static char g_txt[256][8];      // static storage: the pointers stored in the Any stay valid
 static void initTxt() { for (int i = 0; i < 256; ++i) snprintf(g_txt[i], sizeof g_txt[i], "%d", i); }
 static const long LITS[4] = {7, 41, 305, 4096};
+
+// ParameterizedObject float values: code 90 <-> +0.0f, 91 <-> -0.0f, 92 / 93 the two NaNs, otherwise v + 0.5f
+static float pfEnc(long v) { return v == 90 ? floatEnc(0) : (v >= 91 && v <= 93) ? floatEnc(v) : (float)v + 0.5f; }
+static long pfDec(const float &f) { long c = floatDec(f); return (c == 0 && f == 0.0f) ? 90 : c; }
 
 static void setLiteral(utility::ParameterizedObject &po, const std::string &n, long v)
 {
@@ -177,28 +228,30 @@ static std::string runP(const std::vector<std::string> &ops)
       else if (f[0] == "set") {
         long t = std::stol(f[2]), v = std::stol(f[3]); std::string n = nameEnc(std::stol(f[1]));
         if (t == 0) po.setParam<int>(n, (int)v);
-        else if (t == 1) po.setParam<float>(n, (float)v + 0.5f);
+        else if (t == 1) po.setParam<float>(n, pfEnc(v));
         else if (t == 2) po.setParam<std::string>(n, strEnc(v));
         else if (t == 3) po.setParam<vec3f>(n, vec3f((float)v, (float)v + 1, (float)v + 2));
         else if (t == 4) setLiteral(po, n, v);
         else if (t == 5) po.setParam(n, g_txt[v & 255]);                                   // T deduced char[8]
         else if (t == 6) { const char *ptr = g_txt[v & 255]; po.setParam(n, ptr); }          // T = const char*
         else if (t == 7) { utility::Any a = (int)v; po.setParam(n, a); }                     // T = Any
-        else if (t == 8) { utility::Any a = (float)v + 0.5f; po.setParam(n, a); }
+        else if (t == 8) { utility::Any a = pfEnc(v); po.setParam(n, a); }
         else if (t == 9) { utility::Any a = strEnc(v); po.setParam(n, a); }
         else if (t == 10) { utility::Any a; po.setParam(n, a); }
         else if (t == 11) po.setParam(n, (short)v);
-        else po.setParam(n, (C10Enum)v);
+        else if (t == 12) po.setParam(n, (C10Enum)v);
+        else po.setParam(n, Codec<Shadow>::enc(v));                                         // 13: key-only operator==
         o << "ok";
       } else if (f[0] == "get") {
         long t = std::stol(f[2]), d = std::stol(f[3]); std::string n = nameEnc(std::stol(f[1]));
         if (t == 0) o << "val=" << po.getParam<int>(n, (int)d);
-        else if (t == 1) o << "val=" << (long)(po.getParam<float>(n, (float)d + 0.5f));
+        else if (t == 1) o << "val=" << pfDec(po.getParam<float>(n, pfEnc(d)));
         else if (t == 2) o << "val=" << std::stol(po.getParam<std::string>(n, strEnc(d)).substr(1));
         else if (t == 3) o << "val=" << (long)po.getParam<vec3f>(n, vec3f((float)d, (float)d + 1, (float)d + 2)).x;
         else if (t == 4) o << "val=" << std::strtol(po.getParam<const char *>(n, (const char *)g_txt[d & 255]), nullptr, 10);
         else if (t == 5) o << "val=" << (long)po.getParam<short>(n, (short)d);
-        else o << "val=" << (long)po.getParam<C10Enum>(n, (C10Enum)d);
+        else if (t == 6) o << "val=" << (long)po.getParam<C10Enum>(n, (C10Enum)d);
+        else o << "val=" << Codec<Shadow>::dec(po.getParam<Shadow>(n, Codec<Shadow>::enc(d)));
       } else if (f[0] == "rm") { po.removeParam(nameEnc(std::stol(f[1]))); o << "ok"; }
       else if (f[0] == "reset") { po.resetAllParamQueryStatus(); o << "ok"; }
       else if (f[0] == "add") { po.findParam(nameEnc(std::stol(f[1])), true); o << "ok"; }
@@ -211,7 +264,8 @@ static std::string runP(const std::vector<std::string> &ops)
       o << (f1 ? "" : " ") << nameDec(p.name) << "=";
       if (!p.data.valid()) o << "none";
       else if (p.data.is<int>()) o << "0:" << p.data.get<int>();
-      else if (p.data.is<float>()) o << "1:" << (long)p.data.get<float>();
+      else if (p.data.is<float>()) o << "1:" << pfDec(p.data.get<float>());
+      else if (p.data.is<Shadow>()) o << "7:" << Codec<Shadow>::dec(p.data.get<Shadow>());
       else if (p.data.is<std::string>()) o << "2:" << std::stol(p.data.get<std::string>().substr(1));
       else if (p.data.is<const char *>()) o << "4:" << std::strtol(p.data.get<const char *>(), nullptr, 10);
       else if (p.data.is<short>()) o << "5:" << (long)p.data.get<short>();
@@ -228,10 +282,15 @@ static std::string runP(const std::vector<std::string> &ops)
   return out.str();
 }
 
+#endif  // C10_NO_PO
+
 int main(int argc, char **argv)
 {
   std::string mode = argc > 1 ? argv[1] : "ii";
+#ifndef C10_NO_PO
   initTxt();
+#endif
+#ifndef C10_NO_FM
   if (argc > 2 && std::string(argv[2]) == "--table") {
     if (mode == "fd") std::cout << Wide<float, KeyFD>::table() << "\n";
     else if (mode == "hi") std::cout << Wide<short, KeyHI>::table() << "\n";
@@ -239,15 +298,21 @@ int main(int argc, char **argv)
     else if (mode == "sc") std::cout << Wide<std::string, KeySC>::table() << "\n";
     return 0;
   }
+#endif
   std::string line;
   while (std::getline(std::cin, line)) {
     std::istringstream is(line);
     std::string kind; is >> kind;
     std::vector<std::string> ops; std::string t;
     while (is >> t) ops.push_back(t);
-    if (kind == "F") {
+    if (false) {
+    }
+#ifndef C10_NO_FM
+    else if (kind == "F") {
       if (mode == "ii") std::cout << runF<int, int, KeyI>(ops) << "\n";
       else if (mode == "ss") std::cout << runF<std::string, std::string, KeyS>(ops) << "\n";
+      else if (mode == "if") std::cout << runF<int, float, KeyI>(ops) << "\n";
+      else if (mode == "ih") std::cout << runF<int, Shadow, KeyI>(ops) << "\n";
       else std::cout << runF<std::string, std::vector<int>, KeyS>(ops) << "\n";
     } else if (kind == "C") {          // "C <table> ops": the first token is the conversion table (for the model)
       if (!ops.empty()) ops.erase(ops.begin());
@@ -256,7 +321,11 @@ int main(int argc, char **argv)
       else if (mode == "ui") std::cout << runF<unsigned char, int, Wide<unsigned char, KeyUI>>(ops) << "\n";
       else if (mode == "sc") std::cout << runF<std::string, int, Wide<std::string, KeySC>>(ops) << "\n";
       else std::cout << "\n";
-    } else if (kind == "P") std::cout << runP(ops) << "\n";
+    }
+#endif
+#ifndef C10_NO_PO
+    else if (kind == "P") std::cout << runP(ops) << "\n";
+#endif
     else std::cout << "\n";
   }
   return 0;
